@@ -2,7 +2,8 @@
 # builds the runner and primes the build cache; offline, from files on disk only
 set -e
 export GOFLAGS=-mod=mod GOPROXY=off GOSUMDB=off GOTOOLCHAIN=local
-cd /verif/cmd/vcheck
-mkdir -p /verif/bin
-go1.26.8 build -o /verif/bin/vcheck .
-/verif/bin/vcheck warm
+D=$(cd "$(dirname "$0")" && pwd)
+cd "$D/cmd/vcheck"
+mkdir -p "$D/bin"
+go1.26.8 build -o "$D/bin/vcheck" .
+"$D/bin/vcheck" warm
